@@ -4,6 +4,7 @@ import CfbVerif.Phys.Codec
 import CfbVerif.Phys.DifatBack
 import CfbVerif.Phys.EntryBack
 import CfbVerif.Phys.OpenBack
+import CfbVerif.Phys.LookupBack
 /-!
 # C02 — write-through persistence: the byte image always reopens to the same state
 
@@ -200,6 +201,19 @@ theorem C02_reopens (v4 : Bool) (ops : List GOp) (s : Dir.State) (m : Raw.Mode) 
   have mk := (mk_grun_reachable v4 ops hb).1
   have hn : g.p.numSectors ≤ MAXREG := by rw [← j.inv.fat.size]; exact hfs
   exact open_reads_back_dir s j jm mk (gs.ss (ss_create v4)) (gs.cap (cap_create v4)) sw hn mf m wf rb nd hcap hcapN hmod
+
+/-- **…and exposes the same tree**: on the state `open` returns for the rendered image (`rawOf`,
+by `C02_reopens`), the reader model's path resolution — `stream_id_for_name_chain`: one search-tree
+descent per name over the index-linked table — finds, for every name chain, exactly the entry the
+directory model's `resolve` finds in the live tree (its slot), and nothing when that finds nothing:
+`exists` / `is_stream` / `is_storage` / `entry` / `open_stream` address the same objects after a
+reopen, whatever the shapes of the sibling trees -/
+theorem C02_lookup_after_reopen (p : P) (s : Dir.State) (strict : Bool)
+    (wf : s.top.WF) (rb : strict = true → RBAll s.top)
+    (nd : (0 :: s.top.slots).Nodup) (hcap : ∀ x ∈ 0 :: s.top.slots, x < dirCap p) (hcapN : dirCap p ≤ NOSTREAM)
+    (names : List Names.Name) :
+    Raw.lookup (rawOf p (dirtable s)) names Gen.ROOT_STREAM_ID = .ok ((resolve s.top names).map slotOfRes) :=
+  lookup_after_reopen p s strict wf rb nd hcap hcapN names
 
 /-- the premises of `C02_reopens` are met — **a fresh file reopens**: for the state `create` leaves (root
 entry only, no MiniFAT) every hypothesis holds, so both open modes accept the rendered image of a
